@@ -229,6 +229,7 @@ struct Emit {
         if (optional && r.chance(1, 2)) return;
         size_t start = t.size(); size_t l0 = line;
         unsigned k = (unsigned) r.below(14);
+        if (col + 4 > 2048) k = 5;          // whitespace must not push the line past 2048 characters: break the line instead
         switch (k) {
             case 0: case 1: case 2: case 3: raw(U(" ")); break;
             case 4: raw(U("\t")); break;
